@@ -309,7 +309,7 @@ func runScenario(t *engine.T, sc scenario, yields bool, bound, maxExec int, budg
 	for o := range e.outcomes {
 		t.Outcome(sc.name + ":" + o)
 	}
-	t.Nontrivial(fmt.Sprintf("%s/yields=%v/bound=%d", sc.name, yields, bound))
+	t.Nontrivial(fmt.Sprintf("%s/%s/yields=%v/bound=%d", t.Config(), sc.name, yields, bound))
 	t.Extra("schedules_"+sc.name, e.execs)
 	if e.maxPoints > 0 {
 		t.Extra("max_points_"+sc.name, e.maxPoints)
